@@ -889,8 +889,6 @@ func init() {
 	for _, p := range []string{"C09", "C10", "C11", "C12", "C13", "C14"} {
 		register(p, ruleBitList, ruleBitListState)
 	}
-	for _, p := range []string{"C07", "C09", "C11", "C14"} {
-		register(p, rule1DConstructors)
-	}
+	register("C09", rule1DConstructors) // (C07, C11 and C14 have the same obligations through the check-value storage rule)
 	register("C11", ruleScale)
 }
